@@ -252,7 +252,7 @@ def h_loaders(env, kind="gctf"):
             env.check("astigmatism_and_phase_%d" % i, _ok(env, abs(g["astigmatism"] - r[2]) <= 1e-4 and abs(g["phase_shift"] - exp_phase[i]) <= 1e-4))
 
 
-TILTS = [[-60.0, -30.5, 0.0, 29.75], [10.0, -20.0, 40.5, 0.5], [3.0, 0.0, -3.0, 6.0]]
+TILTS = [[-60.0, -30.5, 0.0, 29.75], [10.0, -20.0, 40.5, 0.5], [3.0, 0.0, -3.0, 0.0]]          # the last series holds the angle 0 twice (a re-acquired image)
 
 
 def h_tilt_dose(env, src="tlt"):
